@@ -1098,6 +1098,8 @@ func (c *Client) CloseWithSMTPClient(client *smtp.Client) error {
 		return nil
 	}
 	if err := client.Quit(); err != nil {
+		// The server did not confirm the QUIT, make sure we do not leak the connection
+		_ = client.Close()
 		return fmt.Errorf("failed to close SMTP client: %w", err)
 	}
 
